@@ -26,7 +26,12 @@ def gen_defs(spt, salt=0):
     return c11.gen_defs(spt, salt)
 
 
-GEN = {'C11': gen_defs}
+def _gen_c04(spt, salt=0):
+    from . import c04
+    return c04.gen_defs(spt, salt)
+
+
+GEN = {'C11': gen_defs, 'C04': _gen_c04}
 
 
 def correspond(ctx):
